@@ -445,7 +445,7 @@ impl FiberIoUtils {
                 let processor = processor.clone();
                 async move { processor(path).await }
             })
-            .buffer_unordered(max_concurrent)
+            .buffered(max_concurrent) // results in the order of `paths`
             .collect::<Vec<_>>()
             .await;
 
